@@ -181,6 +181,19 @@ def history_oracle(case, toks, items, positions=True, err_fields=True, sets=True
                 if not good:
                     v.failures.append('op %d %s: record set holds %d records, expected records %s' % (idx, op, len(recs), exp))
                     return v
+        elif c == 'h':
+            # shrink_buffer_to_fit(): the set keeps its records; len()/is_empty() agree with them
+            j = int(op[1:])
+            if not sets:
+                continue
+            if not tok.startswith('H') or not tok[1:].isdigit():
+                v.failures.append('op %d %s: %s' % (idx, op, tok[:60]))
+                return v
+            exp = exp_sets[j]
+            m = int(tok[1:])
+            if exp is not None and m != len(exp) and not (alt_empty[j] and m == 0):
+                v.failures.append('op %d %s: len() = %d after shrinking, expected %d records' % (idx, op, m, len(exp)))
+                return v
         elif c in 'pc':
             if tok[1:] == '-':
                 pos = None
